@@ -1146,19 +1146,701 @@ def cmd_structs():
     return 0
 
 
+def cmd_pins():
+    """rewrite the pinned snapshots of Props/C16.lean from the current sources (a deliberate,
+    reviewed step; `./check` never runs it)"""
+    CODEC_SOURCES.clear()
+    try:
+        structs = collect_structs()
+    except TranslateError as e:
+        print(f"translate pins: ERROR: {e}", file=sys.stderr)
+        return 1
+
+    def c(s):
+        return "c!" + lean_str(s)[:-len(".toList")]
+    keys = "def pinnedKeys : List (Str × List Str) := [\n" + ",\n".join(
+        "  (%s, [%s])" % (c(st["id"]), ", ".join(c(f["key"]) for f in st["fields"])) for st in structs) + "]\n"
+    srcs = "def pinnedSources : List (Str × Str) := [\n" + ",\n".join(
+        "  (%s, %s)" % (c(k), c(source_hash(v))) for k, v in sorted(CODEC_SOURCES.items())) + "]\n"
+    path = os.path.join(VERIF, "lean", "Deb822Verif", "Props", "C16.lean")
+    t = open(path, encoding="utf-8").read()
+    for tag, block in (("KEYS", keys), ("SOURCES", srcs)):
+        m = re.search(r"(-- PINNED-%s-BEGIN[^\n]*\n)(.*?)(-- PINNED-%s-END)" % (tag, tag), t, flags=re.S)
+        if not m:
+            print(f"translate pins: marker PINNED-{tag} not found in {path}", file=sys.stderr)
+            return 1
+        t = t[:m.start(2)] + block + t[m.start(3):]
+    changed = write_if_changed(path, t)
+    print(f"translate pins: {'updated' if changed else 'unchanged'} {os.path.relpath(path, VERIF)}")
+    return 0
+
+
+# --------------------------------------------------------------------------- typed accessors (C15)
+#
+# `translate.py accessors` re-reads the lossless typed views on every run and regenerates
+#   lean/Deb822Verif/Gen/Accessors.lean   one `Row` per public method that touches the wrapped paragraph
+#   harness/gen/accessors.json            the same rows; harness/src/typed.rs calls every setter / getter
+#                                         row on the real code and checks the extracted field name
+# and compares with tools/accessors_baseline.json: a row that was classified there and is now opaque
+# or gone is a hard error (exit 1, poisoned Gen file). `--update-baseline` rewrites the baseline.
+#
+# Row = (view, method, kind, op, clearOp, names, shape, strict, absent, optional, site)
+#   kind     get | set | other
+#   op       get | getAll | set | insert | remove | rename | contains | items | paragraphs | addParagraph | none
+#   clearOp  op used by the clearing branch of a setter (Option argument / `false` flag), or none
+#   names    field-name literals, in order of first use
+#   shape    closed set, see SHAPES
+#   strict   getter: the parse result is `unwrap()`ed (unparsable text panics)
+#   absent   getter: none (Option) | default (unwrap_or_default / unwrap_or(false) on the result) | panic (unwrap)
+#            | empty (unwrap_or_default on the field text: read like an empty field)
+
+ACC_LEAN = os.path.join(VERIF, "lean", "Deb822Verif", "Gen", "Accessors.lean")
+ACC_JSON = os.path.join(VERIF, "harness", "gen", "accessors.json")
+ACC_BASE = os.path.join(VERIF, "tools", "accessors_baseline.json")
+
+ACC_FILES = [
+    ("control", "debian-control/src/lossless/control.rs"),
+    ("apt", "debian-control/src/lossless/apt.rs"),
+    ("changes", "debian-control/src/lossless/changes.rs"),
+    ("buildinfo", "debian-control/src/lossless/buildinfo.rs"),
+    ("copyright", "debian-copyright/src/lossless.rs"),
+    ("dep3", "dep3/src/lossless.rs"),
+]
+
+# shape tags (Lean: `Shape`); list shapes are ("list", sep, trim, elem)
+#   sep   comma | space | ws | nl | lines        (getter: what it splits on; setter: ", " / " " / "\n")
+#   elem  "str" | type name
+SHAPES = ["str", "typed", "list", "flagYes", "flagYesNo", "flagYesOrRemove", "firstLine", "restLines",
+          "license", "licenseBareText", "licenseName", "licenseText", "originField", "rfc2822", "dateYmd",
+          "envMap", "findPara", "filterPara", "addPara", "composite", "derived", "opaque"]
+
+PARA_OPS = {"get": "get", "get_all": "getAll", "set": "set", "insert": "insert", "remove": "remove",
+            "rename": "rename", "contains_key": "contains", "items": "items", "paragraphs": "paragraphs",
+            "add_paragraph": "addParagraph", "keys": "keys"}
+
+TOK = re.compile(STR + r"|'(?:\\.|[^\\'])'|\s+|\w+|.", re.S)
+
+
+def compact(code):
+    """drop white space outside literals (one space is kept between two word characters)"""
+    out = []
+    toks = [t for t in TOK.findall(code)]
+    for i, t in enumerate(toks):
+        if t.isspace():
+            prev = out[-1] if out else ""
+            nxt = toks[i + 1] if i + 1 < len(toks) else ""
+            if prev and nxt and re.match(r"\w", prev[-1]) and re.match(r"\w", nxt[0]):
+                out.append(" ")
+            continue
+        out.append(t)
+    return "".join(out)
+
+
+def split_params(sig):
+    """`a: T, b: U<V, W>` -> [(a, T), (b, U<V,W>)] (top-level commas; angle brackets count)"""
+    parts, depth, cur = [], 0, []
+    for ch in sig:
+        if ch in "<([":
+            depth += 1
+        elif ch in ">)]":
+            depth -= 1
+        if ch == "," and depth == 0:
+            parts.append("".join(cur))
+            cur = []
+        else:
+            cur.append(ch)
+    if "".join(cur).strip():
+        parts.append("".join(cur))
+    out = []
+    for p in parts:
+        p = p.strip()
+        if not p:
+            continue
+        if ":" not in p or p.replace(" ", "") in ("&self", "&mutself", "self", "mutself"):
+            out.append((re.sub(r"'\w+\s*", "", p).replace(" ", ""), None))
+        else:
+            n, t = p.split(":", 1)
+            out.append((n.strip(), compact(t.strip())))
+    return out
+
+
+class Method:
+    pass
+
+
+def view_structs(src):
+    """newtype views: `pub struct X(Paragraph);` / `(deb822_lossless::Deb822)` -> {X: 'Paragraph'|'Deb822'}"""
+    out = {}
+    for m in re.finditer(r"\bpub\s+struct\s+(\w+)\s*\(\s*(?:deb822_lossless::)?(Paragraph|Deb822)\s*\)\s*;", src.mask):
+        out[m.group(1)] = m.group(2)
+    return out
+
+
+def test_spans(src):
+    """spans of `#[cfg(test)] mod x { … }`"""
+    spans = []
+    for m in re.finditer(r"#\s*\[\s*cfg\s*\(\s*test\s*\)\s*\]\s*mod\s+\w+\s*\{", src.mask):
+        o = m.end() - 1
+        spans.append((m.start(), src.match_brace(o)))
+    return spans
+
+
+def impl_methods(src, ty):
+    """methods of every inherent `impl ty { … }` outside test modules"""
+    tests = test_spans(src)
+    out = []
+    for m in re.finditer(r"\bimpl\s+" + re.escape(ty) + r"\s*\{", src.mask):
+        if any(a <= m.start() <= b for a, b in tests):
+            continue
+        o = m.end() - 1
+        c = src.match_brace(o)
+        k = o + 1
+        depth = 0
+        # walk the impl body at depth 0 looking for `fn`
+        while k < c:
+            ch = src.mask[k]
+            if ch in "{([":
+                k = src.match_brace(k) + 1
+                continue
+            fm = re.compile(r"\b(pub(?:\s*\([^)]*\))?\s+)?fn\s+(\w+)\s*").match(src.mask, k)
+            if fm and (k == 0 or not (src.mask[k - 1].isalnum() or src.mask[k - 1] == "_")):
+                par_o = fm.end()
+                if src.mask[par_o] == "<":
+                    depth = 0
+                    while True:
+                        if src.mask[par_o] == "<":
+                            depth += 1
+                        elif src.mask[par_o] == ">" and src.mask[par_o - 1] != "-":
+                            depth -= 1
+                            if depth == 0:
+                                break
+                        par_o += 1
+                    par_o += 1
+                    while src.mask[par_o].isspace():
+                        par_o += 1
+                if src.mask[par_o] != "(":
+                    k += 1
+                    continue
+                par_c = src.match_brace(par_o)
+                body_o = src.mask.index("{", par_c)
+                # `where` clauses / return type sit between par_c and body_o
+                semi = src.mask.find(";", par_c, body_o)
+                if semi >= 0:
+                    k = semi + 1
+                    continue
+                body_c = src.match_brace(body_o)
+                me = Method()
+                me.name = fm.group(2)
+                me.public = fm.group(1) is not None
+                me.params = split_params(src.code[par_o + 1:par_c])
+                ret = src.code[par_c + 1:body_o]
+                rm = re.search(r"->\s*(.*?)\s*(?:\bwhere\b.*)?$", ret, flags=re.S)
+                me.ret = compact(rm.group(1)) if rm else None
+                me.body = compact(src.code[body_o + 1:body_c])
+                me.line = src.line_of(fm.start())
+                # attributes directly above (cfg feature gates)
+                head = src.code[max(0, fm.start() - 200):fm.start()]
+                am = re.search(r'#\[cfg\(feature\s*=\s*"([^"]+)"\)\]\s*$', head)
+                me.feature = am.group(1) if am else None
+                out.append(me)
+                k = body_c + 1
+                continue
+            k += 1
+    return out
+
+
+def receiver(me):
+    if not me.params:
+        return None
+    r = me.params[0][0]
+    return {"&self": "ref", "&mutself": "mut", "self": "own", "mutself": "own"}.get(r)
+
+
+def lit(s, where):
+    return unescape(s, where)
+
+
+def norm_lambdas(expr):
+    """rename closure parameters to _1, _2, … (in order of appearance), drop closure braces that wrap
+    a single expression, drop turbofish on collect/parse"""
+    expr = re.sub(r"\.collect::<[^()]*?>\(\)", ".collect()", expr)
+    expr = re.sub(r"\.parse::<[^()]*?>\(\)", ".parse()", expr)
+    n = 0
+    pos = 0
+    while True:
+        m = re.compile(r"\|(\w+)\|").search(expr, pos)
+        if not m:
+            break
+        n += 1
+        var = m.group(1)
+        new = f"_{n}"
+        head, tail = expr[:m.start()], expr[m.end():]
+        # the closure body extends to the matching close of the enclosing call
+        depth, e = 0, 0
+        while e < len(tail):
+            ch = tail[e]
+            if ch in "([{":
+                depth += 1
+            elif ch in ")]}":
+                if depth == 0:
+                    break
+                depth -= 1
+            elif ch == "," and depth == 0:
+                break
+            elif ch == '"':
+                e += 1
+                while e < len(tail) and tail[e] != '"':
+                    e += 2 if tail[e] == "\\" else 1
+            elif ch == "'":
+                cm = re.match(r"'(?:\\.|[^\\'])'", tail[e:])
+                if cm:
+                    e += len(cm.group(0)) - 1
+            e += 1
+        body = tail[:e]
+        body = re.sub(r"(?<![\w.])" + re.escape(var) + r"(?!\w)", new, body)
+        # replace also `.x` style uses? (not needed: closure vars are never fields)
+        if body.startswith("{") and body.endswith("}") and not _top_has(body[1:-1], ";") and _balanced(body[1:-1]):
+            body = body[1:-1]
+        expr = head + f"|{new}|" + body + tail[e:]
+        pos = len(head) + len(new) + 2
+    return expr
+
+
+def _top_has(s, what):
+    depth = 0
+    for ch in s:
+        if ch in "([{":
+            depth += 1
+        elif ch in ")]}":
+            depth -= 1
+        elif ch == what and depth == 0:
+            return True
+    return False
+
+
+def _balanced(s):
+    depth = 0
+    for ch in s:
+        if ch in "([{":
+            depth += 1
+        elif ch in ")]}":
+            depth -= 1
+            if depth < 0:
+                return False
+    return depth == 0
+
+
+def inner_type(t):
+    """Option<T> -> T ; Vec<T> -> T ; &T -> T"""
+    if t is None:
+        return None
+    t = t.lstrip("&")
+    m = re.fullmatch(r"(?:Option|Vec)<(.*)>", t)
+    return m.group(1) if m else t
+
+
+def short_type(t):
+    """last path segment, references dropped: crate::fields::Urgency -> Urgency"""
+    if t is None:
+        return None
+    t = t.lstrip("&")
+    t = re.sub(r"^mut ", "", t)
+    t = re.sub(r"<.*>$", "", t)
+    return t.split("::")[-1]
+
+
+# getter closures after normalisation -> (shape, strict)
+GET_LAMBDAS = {
+    "_1.to_string()": (("str",), False),
+    "_1.parse().unwrap()": (("typed",), True),
+    "_1.parse().ok()": (("typed",), False),
+    "_1.split(',').map(|_2|_2.trim().to_owned()).collect()": (("list", "comma", True, "str"), False),
+    "_1.split(',').map(|_2|_2.trim().to_string()).collect()": (("list", "comma", True, "str"), False),
+    "_1.split_whitespace().map(|_2|_2.trim().to_string()).collect()": (("list", "ws", False, "str"), False),
+    "_1.split_whitespace().map(|_2|_2.to_string()).collect()": (("list", "ws", False, "str"), False),
+    "_1.split(' ').map(|_2|_2.trim().to_string()).collect()": (("list", "space", True, "str"), False),
+    "_1.split(' ').map(|_2|_2.to_string()).collect()": (("list", "space", False, "str"), False),
+    "_1.split('\\n').map(|_2|_2.to_string()).collect()": (("list", "nl", False, "str"), False),
+    "_1.lines().map(|_2|_2.parse().unwrap()).collect()": (("list", "lines", False, "ELEM"), True),
+    '_1=="yes"': (("flagYes",), False),
+    'match _1.to_lowercase().as_str(){"yes"=>true,"no"=>false,_=>panic!("invalid Rules-Requires-Root value"),}': (("flagYesNo",), True),
+    "chrono::DateTime::parse_from_rfc2822(_1).unwrap()": (("rfc2822",), True),
+    'chrono::NaiveDate::parse_from_str(_1,"%Y-%m-%d").ok()': (("dateYmd",), False),
+    "_1.split('\\n').next().unwrap_or(_1).to_string()": (("firstLine",), False),
+    '_1.split_once(\'\\n\').map(|_2|_2.1).unwrap_or("").to_string()': (("restLines",), False),
+    "crate::fields::parse_origin": (("originField",), False),
+    "_1.split_once('\\n').map_or_else(||License::Name(_1.to_string()),|(name,text)|{if name.is_empty(){License::Text(text.to_string())}else{License::Named(name.to_string(),text.to_string())}},)": (("license",), False),
+    "_1.split_once('\\n').map_or(_1.clone(),|(name,_)|name.to_string())": (("licenseName",), False),
+    "_1.split_once('\\n').map(|(_,text)|text.to_string())": (("licenseText",), False),
+    "_1.lines().map(|_2|{let(key,value)=_2.split_once('=').unwrap();(key.to_string(),value.to_string())}).collect()": (("envMap",), True),
+}
+
+NAME = r"(" + STR + r")"
+
+
+def classify_getter(me, helpers, where):
+    """returns dict or None (opaque)"""
+    b = me.body
+    # inline private zero-argument helpers: self.helper() -> (its body)
+    for hn, hb in helpers.items():
+        b = b.replace(f"self.{hn}()", hb)
+    b = norm_lambdas(b)
+    # base: self.0.get(N) [.or_else(||self.0.get(N2))]
+    m = re.match(r"self\.0\.get\(" + NAME + r"\)(?:\.or_else\(\|\|self\.0\.get\(" + NAME + r"\)\))?", b)
+    if m:
+        names = [lit(m.group(1), where)] + ([lit(m.group(2), where)] if m.group(2) else [])
+        rest = b[m.end():]
+        rest = re.sub(r"^\.as_deref\(\)|^\.as_ref\(\)", "", rest)
+        absent = "none"
+        for suf, mode in ((".unwrap_or_default()", "default"), (".unwrap_or(false)", "default")):
+            if rest.endswith(suf):
+                rest, absent = rest[:-len(suf)], mode
+        shape, strict = None, False
+        if rest == "":
+            shape = ("str",)
+        else:
+            mm = re.fullmatch(r"\.(map|and_then)\((.*)\)", rest, flags=re.S)
+            if mm:
+                lam = mm.group(2)
+                lam = re.sub(r"^\|_1\|", "", lam)
+                if lam.endswith(",") :
+                    lam = lam[:-1]
+                got = GET_LAMBDAS.get(lam)
+                if got:
+                    shape, strict = got
+                    if mm.group(1) == "and_then" and shape not in (("typed",), ("dateYmd",), ("licenseText",)):
+                        shape = None
+            else:
+                # FilesParagraph::files / copyright: get(N).unwrap()… , get(N).unwrap_or_default()…
+                mm = re.fullmatch(r"\.(unwrap\(\)|unwrap_or_default\(\))(\..*)", rest, flags=re.S)
+                if mm:
+                    got = GET_LAMBDAS.get("_1" + mm.group(2).replace("|_1|", "|_2|").replace("_1.", "_2."))
+                    if got:
+                        shape, strict = got
+                        # `get(N).unwrap_or_default().split(…)`: an absent field is read like an empty one
+                        absent = "panic" if mm.group(1) == "unwrap()" else "empty"
+        if shape is None:
+            return None
+        if shape == ("typed",):
+            shape = ("typed", short_type(inner_type(me.ret)))
+        if shape[0] == "list" and shape[3] == "ELEM":
+            shape = ("list", shape[1], shape[2], short_type(inner_type(inner_type(me.ret))))
+        return {"kind": "get", "op": "get", "clearOp": "none", "names": names, "shape": shape,
+                "strict": strict, "absent": absent, "optional": False}
+    m = re.fullmatch(r"self\.0\.get_all\(" + NAME + r"\)\.collect\(\)", b)
+    if m:
+        return {"kind": "get", "op": "getAll", "clearOp": "none", "names": [lit(m.group(1), where)],
+                "shape": ("list", "fields", False, "str"), "strict": False, "absent": "default", "optional": False}
+    # paragraph-level lookups of the document views
+    m = re.fullmatch(r"self\.0\.paragraphs\(\)\.find\(\|_1\|_1\.get\(" + NAME + r"\)\.is_some\(\)\)\.map\((\w+)\)", b)
+    if m:
+        return {"kind": "get", "op": "paragraphs", "clearOp": "none", "names": [lit(m.group(1), where)],
+                "shape": ("findPara",), "strict": False, "absent": "none", "optional": False}
+    m = re.fullmatch(r"self\.0\.paragraphs\(\)\.filter\(\|_1\|_1\.(?:get\(" + NAME + r"\)\.is_some\(\)|contains_key\(" + NAME + r"\))\)\.map\((\w+)\)", b)
+    if m:
+        return {"kind": "get", "op": "paragraphs", "clearOp": "none", "names": [lit(m.group(1) or m.group(2), where)],
+                "shape": ("filterPara",), "strict": False, "absent": "default", "optional": False}
+    return None
+
+
+def arg_shape(expr, params, where):
+    """the text a setter writes, as a function of its parameters -> (shape, param) or None"""
+    ptypes = dict((n, t) for n, t in params if t is not None)
+    e = norm_lambdas(expr)
+    if re.fullmatch(STR, e):
+        return ("const", lit(e, where)), None
+    m = re.fullmatch(r"(\w+)", e)
+    if m and m.group(1) in ptypes:
+        t = ptypes[m.group(1)]
+        if t in ("&str", "&String"):
+            return ("str",), m.group(1)
+    m = re.fullmatch(r"&?(\w+)\.to_string\(\)(?:\.as_str\(\))?|(\w+)\.as_str\(\)|(\w+)\.as_ref\(\)", e)
+    if m:
+        p = m.group(1) or m.group(2) or m.group(3)
+        if p in ptypes:
+            return ("typed", short_type(inner_type(ptypes[p]) if ptypes[p].startswith("Option<") else ptypes[p])), p
+    for sep_lit, sep in (('", "', "comma"), ('" "', "space"), ('"\\n"', "nl")):
+        m = re.fullmatch(r"&(\w+)\.join\(" + re.escape(sep_lit) + r"\)", e)
+        if m and m.group(1) in ptypes:
+            return ("list", sep, False, "str"), m.group(1)
+        m = re.fullmatch(r"&?(\w+)\.iter\(\)\.map\(\|_1\|_1\.to_string\(\)\)\.collect\(\)\.join\(" + re.escape(sep_lit) + r"\)(?:\.as_str\(\))?", e)
+        if m and m.group(1) in ptypes:
+            et = short_type(inner_type(ptypes[m.group(1)]))
+            if ptypes[m.group(1)] in ("&[&str]", "Vec<String>", "&[String]"):
+                et = "str"
+            return ("list", sep, False, et), m.group(1)
+    m = re.fullmatch(r'if (\w+)\{"yes"\}else\{"no"\}', e)
+    if m and ptypes.get(m.group(1)) == "bool":
+        return ("flagYesNo",), m.group(1)
+    m = re.fullmatch(r"(\w+)\.to_rfc2822\(\)\.as_str\(\)", e)
+    if m and m.group(1) in ptypes:
+        return ("rfc2822",), m.group(1)
+    m = re.fullmatch(r'(\w+)\.format\("%Y-%m-%d"\)\.to_string\(\)\.as_str\(\)', e)
+    if m and m.group(1) in ptypes:
+        return ("dateYmd",), m.group(1)
+    m = re.fullmatch(r"crate::fields::format_origin\(&(\w+),&(\w+)\)\.as_str\(\)", e)
+    if m:
+        return ("originField",), m.group(2)
+    return None
+
+
+MUT = r"self\.0\.(set|insert)\(" + NAME + r",(.*?)\);"
+
+LICENSE_SET = {
+    'let text=match license{License::Name(name)=>name.to_string(),License::Named(name,text)=>format!("{}\\n{}",name,text),License::Text(text)=>text.to_string(),};self.0.set("License",&text);': "licenseBareText",
+    'let text=match license{License::Name(name)=>name.to_string(),License::Named(name,text)=>format!("{}\\n{}",name,text),License::Text(text)=>format!("\\n{}",text),};self.0.set("License",&text);': "license",
+}
+
+
+def classify_setter(me, where):
+    b = me.body
+    base = {"kind": "set", "clearOp": "none", "strict": False, "absent": "none", "optional": False}
+    # 1. a single mutation
+    m = re.fullmatch(MUT, b, flags=re.S)
+    if m and "self.0." not in m.group(3):
+        got = arg_shape(m.group(3).rstrip(","), me.params, where)
+        if got and got[0][0] != "const":
+            return dict(base, op=m.group(1), names=[lit(m.group(2), where)], shape=got[0])
+    # 2. Option argument: Some -> set/insert, None -> remove
+    m = re.fullmatch(r"if let Some\((\w+)\)=(\w+)\{" + MUT + r"\}else\{self\.0\.remove\(" + NAME + r"\);\}", b, flags=re.S)
+    if m and m.group(1) == m.group(2) and m.group(4) == m.group(6):
+        params = [(n, (inner_type(t) if n == m.group(2) and t and t.startswith("Option<") else t)) for n, t in me.params]
+        got = arg_shape(m.group(5).rstrip(","), params, where)
+        if got and got[0][0] != "const":
+            return dict(base, op=m.group(3), clearOp="remove", names=[lit(m.group(4), where)], shape=got[0], optional=True)
+    # 3. flag: true -> "yes", false -> remove
+    m = re.fullmatch(r'if (\w+)\{self\.0\.(set|insert)\(' + NAME + r',"yes"\);\}else\{self\.0\.remove\(' + NAME + r"\);\}", b)
+    if m and m.group(3) == m.group(4):
+        return dict(base, op=m.group(2), clearOp="remove", names=[lit(m.group(3), where)], shape=("flagYesOrRemove",))
+    # 4. license
+    if b in LICENSE_SET:
+        return dict(base, op="set", names=["License"], shape=(LICENSE_SET[b],))
+    # 5. one of two names: if contains(A) { op(A, x) } else { op(B, x) }
+    m = re.fullmatch(r"if self\.0\.contains_key\(" + NAME + r"\)\{self\.0\.(set|insert)\(" + NAME + r",(\w+)\);\}else\{self\.0\.(set|insert)\(" + NAME + r",(\w+)\);\}", b)
+    if m and m.group(1) == m.group(3) and m.group(2) == m.group(5) and m.group(4) == m.group(7):
+        got = arg_shape(m.group(4), me.params, where)
+        if got and got[0] == ("str",):
+            return dict(base, op=m.group(2), names=[lit(m.group(6), where), lit(m.group(1), where)], shape=("str",))
+    # 6. paragraph-level: add_paragraph + set(N, name)
+    m = re.fullmatch(r"let mut (\w+)=self\.0\.add_paragraph\(\);\1\.set\(" + NAME + r",(\w+)\);(.*)", b)
+    if m:
+        return dict(base, kind="set", op="addParagraph", names=[lit(m.group(2), where)], shape=("addPara",))
+    # 7. composite: every mutation is the same op on a literal name; the written text is not modelled
+    muts = re.findall(r"self\.0\.(set|insert|remove|rename)\((.*?)[,)]", b)
+    if muts and all(re.fullmatch(STR, a) for _, a in muts):
+        ops = sorted(set(o for o, _ in muts))
+        names = []
+        for _, a in muts:
+            n = lit(a, where)
+            if n not in names:
+                names.append(n)
+        if len(ops) == 1 and ops[0] in ("set", "insert"):
+            return dict(base, op=ops[0], names=names, shape=("composite",))
+    return None
+
+
+def classify_other(me, where, accessor_names):
+    """&mut self methods that are not setters, &self methods built from other accessors"""
+    b = me.body
+    muts = re.findall(r"self\.0\.(set|insert|remove|rename|contains_key|get)\((.*?)[,)]", b)
+    if muts and all(re.fullmatch(STR, a) for _, a in muts) and any(o in ("set", "insert", "remove", "rename") for o, _ in muts):
+        names = []
+        for _, a in muts:
+            n = lit(a, where)
+            if n not in names:
+                names.append(n)
+        op = "rename" if any(o == "rename" for o, _ in muts) else [o for o, _ in muts if o in ("set", "insert", "remove")][0]
+        return {"kind": "other", "op": op, "clearOp": "none", "names": names, "shape": ("composite",),
+                "strict": False, "absent": "none", "optional": False}
+    if "self.0." not in b and re.search(r"\bself\.(\w+)\(", b):
+        called = set(re.findall(r"\bself\.(\w+)\(", b))
+        if called <= accessor_names:
+            return {"kind": "other", "op": "none", "clearOp": "none", "names": [], "shape": ("derived",),
+                    "strict": False, "absent": "none", "optional": False}
+    return None
+
+
+SKIP_METHODS = {"as_deb822", "as_mut_deb822", "as_deb822_mut", "wrap_and_sort", "write"}
+
+
+def touches(me):
+    return re.search(r"\bself\.0\.(" + "|".join(PARA_OPS) + r")\(", me.body) is not None
+
+
+def extract_accessors(srcs):
+    rows, skipped = [], []
+    for mod, rel in ACC_FILES:
+        src = srcs(rel)
+        views = view_structs(src)
+        if not views:
+            fail(f"{rel}: no newtype view over Paragraph/Deb822 found")
+        for ty in views:
+            methods = impl_methods(src, ty)
+            names = {m.name for m in methods}
+            helpers = {}
+            for me in methods:
+                if not me.public and receiver(me) == "ref" and len(me.params) == 1 and re.fullmatch(r"self\.0\.get\(" + STR + r"\)(\.or_else\(\|\|self\.0\.get\(" + STR + r"\)\))?", me.body):
+                    helpers[me.name] = me.body
+            for me in methods:
+                view = f"{mod}.{ty}"
+                where = f"{rel}:{me.line}"
+                rc = receiver(me)
+                direct = touches(me)
+                uses_helper = any(f"self.{h}()" in me.body for h in helpers)
+                calls_acc = bool(set(re.findall(r"\bself\.(\w+)\(", me.body)) & (names - SKIP_METHODS))
+                if not me.public:
+                    if me.name not in helpers:
+                        skipped.append((view, me.name, where, "private"))
+                    continue
+                if rc is None or me.name in SKIP_METHODS or not (direct or uses_helper or calls_acc):
+                    skipped.append((view, me.name, where, "no receiver" if rc is None else "does not touch the paragraph"))
+                    continue
+                got = None
+                if rc == "ref" and me.ret is not None and (direct or uses_helper):
+                    got = classify_getter(me, helpers, where)
+                elif rc == "mut" and (me.name.startswith("set_") or me.name.startswith("add_")):
+                    got = classify_setter(me, where)
+                if got is None:
+                    got = classify_other(me, where, names)
+                if got is None:
+                    kind = "get" if (rc == "ref" and me.ret is not None) else ("set" if me.name.startswith("set_") else "other")
+                    ops = re.findall(r"\bself\.0\.(" + "|".join(PARA_OPS) + r")\(", me.body)
+                    got = {"kind": kind, "op": PARA_OPS[ops[0]] if ops else "none", "clearOp": "none",
+                           "names": [lit(x, where) for x in re.findall(r"self\.0\.\w+\((" + STR + r")", me.body)],
+                           "shape": ("opaque",), "strict": False, "absent": "none", "optional": False}
+                got.update(view=view, method=me.name, site=where, feature=me.feature,
+                           params=[f"{n}:{t}" for n, t in me.params if t is not None], ret=me.ret)
+                rows.append(got)
+    return rows, skipped
+
+
+def shape_tag(sh):
+    return sh[0]
+
+
+def lean_shape(sh):
+    if sh[0] == "typed":
+        return f"(.typed {lean_str(sh[1])})"
+    if sh[0] == "list":
+        elem = ".str" if sh[3] == "str" else f"(.typed {lean_str(sh[3])})"
+        return f"(.list .{sh[1]} {'true' if sh[2] else 'false'} {elem})"
+    return f".{sh[0]}"
+
+
+def json_shape(sh):
+    if sh[0] == "typed":
+        return {"tag": "typed", "ty": sh[1]}
+    if sh[0] == "list":
+        return {"tag": "list", "sep": sh[1], "trim": sh[2], "elem": sh[3]}
+    return {"tag": sh[0]}
+
+
+def emit_acc_lean(rows, skipped):
+    L = []
+    L.append("import Deb822Verif.Model.TypedRow")
+    L.append("/-!")
+    L.append("  GENERATED by tools/translate.py accessors from the Rust sources of /repo — do not edit.")
+    L.append("  Plain data only. Regenerated on every `./check C15`.")
+    L.append(f"  {len(rows)} rows ({sum(1 for r in rows if r['shape'][0] == 'opaque')} opaque); {len(skipped)} methods skipped (constructors, raw paragraph access, I/O).")
+    L.append("-/")
+    L.append("namespace Deb822Verif.Gen.Accessors")
+    L.append("open Deb822Verif.Typed")
+    L.append("")
+    L.append("def rows : List Row := [")
+    for i, r in enumerate(rows):
+        names = "[" + ", ".join(lean_str(n) for n in r["names"]) + "]"
+        L.append(f"  -- {r['site']}")
+        L.append(f"  ⟨{lean_str(r['view'])}, {lean_str(r['method'])}, .{r['kind']}, .{r['op']}, .{r['clearOp']}, {names}, "
+                 f"{lean_shape(r['shape'])}, {'true' if r['strict'] else 'false'}, .{r['absent']}, {'true' if r['optional'] else 'false'}⟩"
+                 + ("," if i + 1 < len(rows) else ""))
+    L.append("]")
+    L.append("")
+    L.append("end Deb822Verif.Gen.Accessors")
+    return "\n".join(L) + "\n"
+
+
+def emit_acc_json(rows, skipped):
+    return json.dumps({
+        "generated_by": "tools/translate.py accessors",
+        "rows": [{"view": r["view"], "method": r["method"], "kind": r["kind"], "op": r["op"], "clear_op": r["clearOp"],
+                  "names": r["names"], "shape": json_shape(r["shape"]), "strict": r["strict"], "absent": r["absent"],
+                  "optional": r["optional"], "site": r["site"], "params": r["params"], "ret": r["ret"],
+                  "feature": r["feature"]} for r in rows],
+        "skipped": [{"view": v, "method": m, "site": s, "why": w} for v, m, s, w in skipped],
+    }, indent=1, ensure_ascii=True) + "\n"
+
+
+ACC_POISON = """import Deb822Verif.Model.TypedRow
+/-! GENERATED by tools/translate.py accessors — the translator FAILED on the current /repo sources:
+
+{msg}
+
+This file deliberately does not compile, so that no proof is accepted over stale tables. -/
+namespace Deb822Verif.Gen.Accessors
+theorem translator_failed : (0 : Nat) = 1 := by decide
+end Deb822Verif.Gen.Accessors
+"""
+
+
+def cmd_accessors(update_baseline=False):
+    cache = {}
+
+    def srcs(rel):
+        if rel not in cache:
+            cache[rel] = Src(rel)
+        return cache[rel]
+
+    try:
+        rows, skipped = extract_accessors(srcs)
+    except TranslateError as e:
+        print(f"translate accessors: ERROR: {e}", file=sys.stderr)
+        write_if_changed(ACC_LEAN, ACC_POISON.format(msg=str(e).replace("-/", "- /")))
+        return 1
+    opaque = [r for r in rows if r["shape"][0] == "opaque"]
+    current = {f"{r['view']}.{r['method']}": shape_tag(r["shape"]) for r in rows}
+    if update_baseline or not os.path.exists(ACC_BASE):
+        with open(ACC_BASE, "w", encoding="utf-8") as f:
+            json.dump({"note": "classified rows of the last accepted translator run; `translate.py accessors` fails when one "
+                               "of them becomes opaque or disappears (rewrite with --update-baseline after review)",
+                       "rows": current}, f, indent=1, sort_keys=True)
+            f.write("\n")
+    base = json.load(open(ACC_BASE, encoding="utf-8"))["rows"]
+    lost = []
+    for key, tag in sorted(base.items()):
+        if tag == "opaque":
+            continue
+        if key not in current:
+            lost.append(f"{key}: classified as {tag} in the baseline, no longer present")
+        elif current[key] == "opaque":
+            lost.append(f"{key}: classified as {tag} in the baseline, now opaque")
+    new = sorted(k for k in current if k not in base)
+    print(f"translate accessors: {len(rows)} rows from {len(ACC_FILES)} files, {len(opaque)} opaque, "
+          f"{len(skipped)} methods skipped, {len(new)} not in the baseline")
+    for r in opaque:
+        print(f"  OPAQUE {r['view']}.{r['method']} ({r['site']}): ops on the paragraph not classifiable; harness only")
+    for k in new:
+        print(f"  NEW {k}: {current[k]} (not in tools/accessors_baseline.json)")
+    if lost:
+        msg = "coverage lost against tools/accessors_baseline.json:\n  " + "\n  ".join(lost)
+        print(f"translate accessors: ERROR: {msg}", file=sys.stderr)
+        write_if_changed(ACC_LEAN, ACC_POISON.format(msg=msg.replace("-/", "- /")))
+        return 1
+    c1 = write_if_changed(ACC_LEAN, emit_acc_lean(rows, skipped))
+    c2 = write_if_changed(ACC_JSON, emit_acc_json(rows, skipped))
+    print(f"  {'updated' if c1 or c2 else 'unchanged'} {os.path.relpath(ACC_LEAN, VERIF)}, {os.path.relpath(ACC_JSON, VERIF)}")
+    return 0
+
+
 def main(argv):
-    if not argv:
+    cmds = {"enums": cmd_enums, "structs": cmd_structs, "pins": cmd_pins,
+            "accessors": lambda: cmd_accessors(update_baseline="--update-baseline" in argv)}
+    todo = [a for a in argv if not a.startswith("--")]
+    if not todo or any(a not in cmds for a in todo):
         print(__doc__)
         return 2
     rc = 0
-    for cmd in argv:
-        if cmd == "enums":
-            rc = cmd_enums() or rc
-        elif cmd == "structs":
-            rc = cmd_structs() or rc
-        else:
-            print(__doc__)
-            return 2
+    for a in todo:
+        rc = max(rc, cmds[a]() or 0)
     return rc
 
 
